@@ -1,22 +1,23 @@
-import Cutadapt.Proofs.KmerFinder
+import Cutadapt.Proofs.KmerOverlap
 /-! # C07 — the k-mer prefilter never changes which adapter match is found
 
 Model: `Cutadapt.Kmer` (`kmer_heuristic.py`, `_kmer_finder.pyx`, `_make_kmer_finder` and `_kmer_finder()` of the adapter
 classes). `Kmer.matchToFiltered a read beyond` is `match_to` as coded (prefilter, then aligner); `Adapters.matchTo a read`
 is the aligner alone (what `MockKmerFinder` gives).
 
-The property is **false** on the current tree (`prefilter_unsafe_witness`, `prefilter_not_safe`), in five ways:
-(i) anchored / non-internal adapters with indels, (ii) `anywhere` adapters on reads inside the adapter, (iii) 5' windows read
-past the end of short reads — known from the design phase — and, found while this file was written, (iv) NUL bytes in
-the read against `N` wildcards and (v) *regular* 3'/5'/rightmost adapters that allow two or more errors (same cause as (i):
-the overlap windows have no slack for insertions).
+History. On the tree as first examined the property failed in five ways: (i) anchored / non-internal adapters with indels,
+(ii) `anywhere` adapters on reads inside the adapter, (iii) 5' windows read past the end of short reads, (iv) NUL bytes in the
+read against `N` wildcards, (v) regular adapters that allow two or more errors. (i), (v) were repaired by 8c49284 (every
+overlap window is widened by the errors allowed at its level when indels are on), (iii) by d940092 (`stop` clamped); the model
+follows the repaired code. (ii) and (iv) remain (known findings): `prefilter_unsafe_witness`, `prefilter_not_safe`.
 
-Proved without restriction: the bit-parallel search is exact (`shift_and_correct`, `shift_and_correct_entry`,
-`kmers_present_spec`), `kmer_chunks` meets its specification, the pigeonhole argument for edit scripts, the absence of the
-`NotImplementedError` path, the content of the whole-read entry (`internal_entry`), and that the prefilter can only remove
-a match (`prefilter_only_removes`). `prefilter_safe_partial` proves the property for the fragment that is true: matches
-spanning the whole adapter for the classes that search the chunks of the whole adapter in the whole read (regular 3',
-regular 5', rightmost 5', anywhere), anchored adapters without indels, and — trivially — reads without a match. -/
+Proved: the bit-parallel search is exact (`shift_and_correct`, `shift_and_correct_entry`, `kmers_present_spec`), the verdict
+does not depend on memory behind the read (`kmers_present_ignores_beyond`), `kmer_chunks` meets its specification, the
+pigeonhole argument, absence of the `NotImplementedError` path, every overlap level is safe on its own
+(`overlap_level_safe`), and **`prefilter_safe_partial`: on the decidable domain `Kmer.safeDomain a read` — the read is ASCII
+without NUL, and not (both overlap directions searched ∧ |read| < |adapter| + ⌊rate·|adapter|⌋) — `match_to` with the
+prefilter equals the aligner alone, for all eight adapter classes, all reads, any number of errors and indels.** The check
+evaluates `safeDomain` on every oracle failure: all lie outside. -/
 namespace Cutadapt.C07
 open Cutadapt Cutadapt.Spec Cutadapt.Kmer Cutadapt.Adapters Cutadapt.Align Cutadapt.Generated
 
@@ -49,7 +50,7 @@ example : (packWords (List.replicate 3 (List.replicate 30 (65 : UInt8)))).length
 
 /-- **`kmers_present` as a whole.** For a finder built from `entries` (no empty k-mer), the verdict is true iff some
     k-mer of some entry occurs, under `matches_lookup(ref_wildcards, query_wildcards)`, inside the window that the
-    entry's `(start, stop)` selects — from the memory `read ++ beyond ++ 0…`, because a positive `stop` is not clamped. -/
+    entry's `(start, stop)` selects — of the read (`haystack (read ++ beyond) st len` never reaches `beyond`, see `kmers_present_ignores_beyond`). -/
 theorem kmers_present_spec {entries : List Kmer.Entry} {ms : List MaskEntry} (h : mkFinder entries = some ms)
     (hne : ∀ e ∈ entries, ∀ k ∈ e.kmers, k ≠ []) (wr wq : Bool) (read beyond : Bytes) :
     kmersPresent (.masks wr wq ms) read beyond = true ↔
@@ -57,9 +58,9 @@ theorem kmers_present_spec {entries : List Kmer.Entry} {ms : List MaskEntry} (h 
       ∃ k ∈ e.kmers, ∃ i, OccursAt (kmerMatches wr wq) k (haystack (read ++ beyond) st len) i :=
   kmersPresent_iff h hne wr wq read beyond
 
-/-- window arithmetic, as coded: the last 3 characters; from 0 to the end; a 5' window of 6 on a read of 4 (not clamped);
-    a 3' window longer than the read is clamped to the read -/
-example : windowOf (-3) 0 10 = some (7, 3) ∧ windowOf 0 0 10 = some (0, 10) ∧ windowOf 0 6 4 = some (0, 6) ∧
+/-- window arithmetic, as coded: the last 3 characters; from 0 to the end; a 5' window of 6 on a read of 4 (clamped since
+    d940092); a 3' window longer than the read is clamped to the read -/
+example : windowOf (-3) 0 10 = some (7, 3) ∧ windowOf 0 0 10 = some (0, 10) ∧ windowOf 0 6 4 = some (0, 4) ∧
     windowOf (-6) 0 4 = some (0, 4) ∧ windowOf 0 (-2) 2 = none := by decide +kernel
 
 /-! ## `kmer_chunks` -/
@@ -102,38 +103,82 @@ example : ∃ (j : Nat) (ch : List Sym) (o' : Nat), ([[65, 67], [71, 84]] : List
 
 /-- `create_positions_and_kmers` never takes the `NotImplementedError` path of `minimize_kmer_search_list`
     (back searches have `stop = None`, front searches have `start = 0`). -/
-theorem positions_never_error (adapter : Bytes) (mo : Nat) (thr : Nat → Nat) (b f i : Bool) :
-    ∃ entries, createPositionsAndKmers adapter mo thr b f i = .ok entries :=
-  createPositionsAndKmers_ok adapter mo thr b f i
+theorem positions_never_error (adapter : Bytes) (mo : Nat) (thr : Nat → Nat) (b f i ind : Bool) :
+    ∃ entries, createPositionsAndKmers adapter mo thr b f i ind = .ok entries :=
+  createPositionsAndKmers_ok adapter mo thr b f i ind
 
 /-- `minimize_kmer_search_list` itself does raise for a k-mer searched at two positions one of which is in the middle -/
 example : (minimizeKmerSearchList [([65], (2, some 5)), ([65], (0, some 3))]).toOption = none := by decide +kernel
 
 /-- the internal entry `(0, None)` of an adapter with an internal search set holds exactly the chunks of the whole adapter -/
-theorem internal_entry {adapter : Bytes} {mo : Nat} {thr : Nat → Nat} {b f : Bool} {entries : List Kmer.Entry}
-    (h : createPositionsAndKmers adapter mo thr b f true = .ok entries) (hmo : 1 ≤ mo) (k : Bytes) :
+theorem internal_entry {adapter : Bytes} {mo : Nat} {thr : Nat → Nat} {b f ind : Bool} {entries : List Kmer.Entry}
+    (h : createPositionsAndKmers adapter mo thr b f true ind = .ok entries) (hmo : 1 ≤ mo) (k : Bytes) :
     (∃ e ∈ entries, e.start = 0 ∧ e.stop = none ∧ k ∈ e.kmers) ↔ k ∈ kmerChunksList adapter (thr adapter.length + 1) :=
   entry_zero_none_iff h hmo k
 
 /-- `create_positions_and_kmers("AAAAATTTTT", 3, 0.1, back_adapter=True, front_adapter=False)` (`⌊L/10⌋` for `int(L·0.1)`);
     the back search `(-9, None, {"AAAAA"})` is absorbed by the internal search `(0, None)` -/
-example : (createPositionsAndKmers [65, 65, 65, 65, 65, 84, 84, 84, 84, 84] 3 (· / 10) true false true).toOption =
+example : (createPositionsAndKmers [65, 65, 65, 65, 65, 84, 84, 84, 84, 84] 3 (· / 10) true false true false).toOption =
     some [⟨-4, none, [[65, 65, 65, 65]]⟩, ⟨-3, none, [[65, 65, 65]]⟩,
           ⟨0, none, [[65, 65, 65, 65, 65], [84, 84, 84, 84, 84]]⟩] := by decide +kernel
+
+/-- with indels the window of a level is widened by the errors allowed there (8c49284): `SuffixAdapter("GCGGAAT", 0.2)`
+    (one error at length 7) searches `GCGG`/`AAT` in the last 7 + 1 characters, without indels in the last 7 -/
+example : (createPositionsAndKmers [71, 67, 71, 71, 65, 65, 84] 7 (· / 5) true false false true).toOption =
+    some [⟨-8, none, [[65, 65, 84], [71, 67, 71, 71]]⟩] ∧
+    (createPositionsAndKmers [71, 67, 71, 71, 65, 65, 84] 7 (· / 5) true false false false).toOption =
+    some [⟨-7, none, [[65, 65, 84], [71, 67, 71, 71]]⟩] := by decide +kernel
+
+/-! ## The verdict is a function of the read -/
+
+/-- **Since d940092 the verdict of `kmers_present` does not depend on what lies behind the read in memory.** -/
+theorem kmers_present_ignores_beyond (f : Finder) (read b1 b2 : Bytes) :
+    kmersPresent f read b1 = kmersPresent f read b2 :=
+  kmersPresent_ignores_beyond f read b1 b2
+
+/-- every window lies inside the sequence -/
+theorem window_inside {start stop : Int} {n st len : Nat} (h : windowOf start stop n = some (st, len)) : st + len ≤ n :=
+  windowOf_bound h
+
+/-! ## Every overlap level is safe on its own -/
+
+/-- **The cascade is not needed on the repaired tables.** Let a script align the adapter prefix `ad[:L]` (characters seen through
+    `f`), `min_overlap ≤ L ≤ |ad|`, with the text suffix `T[rs:]` at cost at most `thr L` (`thr` as for a rate below 1), and
+    let its number of indels be at most the slack of the level (`thr L` with indels, 0 without). Then some search set of
+    `create_back_overlap_searchsets(ad, min_overlap, rate, indels)` has a non-empty k-mer, made of adapter characters, that
+    occurs in `T` (under `eq`, through `f`) entirely inside that set's window `[|T| + start, |T|)`.
+    (The 5' direction is the same statement for the reversed adapter and text.) -/
+theorem overlap_level_safe {thr : Nat → Nat} (hthr : ThrOK thr) (ad : Bytes) (mo : Nat) (hmo : 1 ≤ mo) (ind : Bool)
+    (eq : Sym → Sym → Bool) (c : Nat) (hc : 1 ≤ c) (f : Sym → Sym) (T : List Sym) (rs L : Nat)
+    (hL1 : mo ≤ L) (hL2 : L ≤ ad.length) (s : List Op) (hl : lhs s = (ad.take L).map f) (hr : rhs s = T.drop rs)
+    (hrs : rs ≤ T.length) (hcost : cost eq c s ≤ thr L) (hind : indels s ≤ (if ind then thr L else 0)) :
+    ∃ S ∈ createBackOverlapSearchsets ad mo thr ind, S.stop = none ∧ ∃ k ∈ S.kmers, k ≠ [] ∧ (∀ a ∈ k, a ∈ ad) ∧ ∃ p,
+      OccursAt eq (k.map f) T p ∧ (T.length : Int) + S.start ≤ p :=
+  Kmer.overlap_level_safe hthr ad mo hmo ind eq c hc f T rs L hL1 hL2 s hl hr hrs hcost hind
+
+/-- every overlap length from `min_overlap` on has a search set serving it (`Kmer.Serves`) -/
+theorem overlap_levels_cover {thr : Nat → Nat} (h : ThrOK thr) (ad : Bytes) (indels : Bool) (mo : Nat) (hmo : 1 ≤ mo)
+    (L : Nat) (h1 : mo ≤ L) (h2 : L ≤ ad.length) :
+    ∃ S ∈ createBackOverlapSearchsets ad mo thr indels, Serves ad thr indels S L :=
+  backSets_serves h ad indels mo hmo L h1 h2
+
+/-- `int(i * 0.1)` for a 29-mer: the levels are (0, 9), (1, 19), (2, 29) -/
+example : errorLengths (· / 10) 29 = [(0, 9), (1, 19), (2, 29)] := by decide +kernel
 
 /-! ## The property -/
 
 /-- invariants every adapter object has after `SingleAdapter.__init__` with a maximum error rate below 1:
-    non-empty upper-case ASCII sequence without NUL, `thr L = ⌊fl(L·rate)⌋` is monotone and below `L`,
-    `1 ≤ min_overlap ≤ len(sequence)`, `min_overlap = len(sequence)` for anchored adapters -/
+    non-empty upper-case ASCII sequence without NUL; `thr L = ⌊fl(L·rate)⌋` starts at 0, is monotone, grows by at most one
+    per step and stays below `L`; `1 ≤ min_overlap ≤ len(sequence)`, `= len(sequence)` for anchored adapters; without
+    indels (indel cost 100000) the adapter is not longer than that cost -/
 structure AdapterOK (a : Adapter) : Prop where
   seq_ok : ∀ c ∈ a.seq, c ≠ 0 ∧ c < 128 ∧ tr upperTable c = c
-  thr_mono : ∀ x y, x ≤ y → a.thr x ≤ a.thr y
-  thr_lt : ∀ L, 1 ≤ L → a.thr L < L
+  thr_ok : ThrOK a.thr
   seq_ne : 1 ≤ a.seq.length
   overlap_pos : 1 ≤ a.minOverlap
   overlap_le : a.minOverlap ≤ a.seq.length
   anchored : isAnchored a.ty = true → a.minOverlap = a.seq.length
+  noindel_len : a.indels = false → a.seq.length ≤ indelCostOff
 
 /-- reads are ASCII (dnaio guarantees it) -/
 def ReadOK (read : Bytes) : Prop := ∀ c ∈ read, c < 128
@@ -152,58 +197,39 @@ def mkA (ty : AdapterType) (seq : Bytes) (thr : Nat → Nat) (mo : Nat) (aw : Bo
     adapterWildcards := aw
     indels := true }
 
-/-- (i) `SuffixAdapter("GCGGAAT", max_errors=0.2)` -/
-def w1 : Adapter := mkA .suffix [71, 67, 71, 71, 65, 65, 84] (· / 5) 7 false
 /-- (ii) `AnywhereAdapter("TTGT", max_errors=0.2, min_overlap=1)` -/
 def w2 : Adapter := mkA .anywhere [84, 84, 71, 84] (· / 5) 1 false
-/-- (iii) `FrontAdapter("ACGTACGTAC", max_errors=0, min_overlap=3)` -/
-def w3 : Adapter := mkA .front [65, 67, 71, 84, 65, 67, 71, 84, 65, 67] (fun _ => 0) 3 false
 /-- (iv) `BackAdapter("NACGTACGT", max_errors=0, min_overlap=3)` (wildcards in the adapter) -/
 def w4 : Adapter := mkA .back [78, 65, 67, 71, 84, 65, 67, 71, 84] (fun _ => 0) 3 true
-/-- (v) `BackAdapter("TCAAAACAGTTCAATGTGA", max_errors=0.15, min_overlap=3)` — a regular 3' adapter -/
-def w5 : Adapter := mkA .back [84, 67, 65, 65, 65, 65, 67, 65, 71, 84, 84, 67, 65, 65, 84, 71, 84, 71, 65] (· * 3 / 20) 3 false
-/-- `TCAAAATCAGTTACAATGTG`: the first 18 adapter bases with two inserted bases -/
-def r5 : Bytes := [84, 67, 65, 65, 65, 65, 84, 67, 65, 71, 84, 84, 65, 67, 65, 65, 84, 71, 84, 71]
+/-- `TTTT\0ACGTACGTGGGGGGGGGG` -/
+def r4 : Bytes := [84, 84, 84, 84, 0, 65, 67, 71, 84, 65, 67, 71, 84, 71, 71, 71, 71, 71, 71, 71, 71, 71, 71]
 
-/-- **Counterexamples** (each replayed against the real code by the check):
-    (i) anchored 3' adapter with indels, read `CGTGCGGATAT`: the aligner finds `GCGGATAT` (one insertion), the prefilter
-        searches `GCGG`/`AAT` only in the last 7 characters and says no;
+/-- **Counterexamples that remain** (known findings; each replayed against the real code by the check):
     (ii) `anywhere` adapter `TTGT`, read `G` lying strictly inside the adapter: exact match of `adapter[2:3]`, prefilter says no;
-    (iii) 5' adapter, empty read: the window `[0, 10)` is read from memory behind the read — the verdict is true or false
-        depending on what happens to be there;
     (iv) a NUL byte in the read matches the adapter's `N` wildcard in the aligner but nothing in the finder's tables
-        (`matches_lookup` drops `\0`): regular 3' adapter `NACGTACGT`, read `TTTT\0ACGTACGTGGGGGGGGGG`;
-    (v) the window defect of (i) also hits *regular* adapters: 19-base 3' adapter with 15 % errors, the read consists of the
-        first 18 adapter bases with two insertions (20 characters): the aligner reports them with 2 errors; the search set for
-        two errors looks at the last 19 characters only, its first k-mer starts one character earlier, the other k-mers and
-        all k-mers of the whole-adapter search are broken by the insertions. -/
+        (`matches_lookup` drops `\0`): regular 3' adapter `NACGTACGT`, read `TTTT\0ACGTACGTGGGGGGGGGG`.
+    Both lie outside `safeDomain`. -/
 theorem prefilter_unsafe_witness :
-    (matchTo w1 [67, 71, 84, 71, 67, 71, 71, 65, 84, 65, 84] = some ⟨0, 7, 3, 11, 5, 1, false⟩ ∧
-     matchToFiltered w1 [67, 71, 84, 71, 67, 71, 71, 65, 84, 65, 84] [] = none) ∧
-    (matchTo w2 [71] = some ⟨2, 3, 0, 1, 1, 0, true⟩ ∧ matchToFiltered w2 [71] [] = none) ∧
-    (kmersPresent (finderFor w3) [] [0, 67, 71, 84, 65, 67] = true ∧ kmersPresent (finderFor w3) [] [] = false) ∧
-    (matchTo w4 [84, 84, 84, 84, 0, 65, 67, 71, 84, 65, 67, 71, 84, 71, 71, 71, 71, 71, 71, 71, 71, 71, 71]
-        = some ⟨0, 9, 4, 13, 9, 0, false⟩ ∧
-     matchToFiltered w4 [84, 84, 84, 84, 0, 65, 67, 71, 84, 65, 67, 71, 84, 71, 71, 71, 71, 71, 71, 71, 71, 71, 71] []
-        = none) ∧
-    (matchTo w5 r5 = some ⟨0, 18, 0, 20, 14, 2, false⟩ ∧ matchToFiltered w5 r5 [] = none) := by
+    (matchTo w2 [71] = some ⟨2, 3, 0, 1, 1, 0, true⟩ ∧ matchToFiltered w2 [71] [] = none ∧ safeDomain w2 [71] = false) ∧
+    (matchTo w4 r4 = some ⟨0, 9, 4, 13, 9, 0, false⟩ ∧ matchToFiltered w4 r4 [] = none ∧ safeDomain w4 r4 = false) := by
   decide +kernel
 
-theorem w1_ok : AdapterOK w1 where
+theorem w2_ok : AdapterOK w2 where
   seq_ok := by decide +kernel
-  thr_mono := by intro x y h; simp only [w1, mkA]; omega
-  thr_lt := by intro L h; simp only [w1, mkA]; omega
+  thr_ok := ⟨by decide, by intro x y h; simp only [w2, mkA]; omega, by intro x; simp only [w2, mkA]; omega,
+             by intro L h; simp only [w2, mkA]; omega⟩
   seq_ne := by decide
   overlap_pos := by decide
   overlap_le := by decide
   anchored := by decide
+  noindel_len := by decide
 
 /-- the property as stated does not hold for the code as it is -/
 theorem prefilter_not_safe : ¬ prefilter_safe_statement := by
   intro h
-  have h1 := h w1 w1_ok [67, 71, 84, 71, 67, 71, 71, 65, 84, 65, 84] [] (by unfold ReadOK; decide +kernel)
+  have h1 := h w2 w2_ok [71] [] (by unfold ReadOK; decide +kernel)
   have h2 := prefilter_unsafe_witness.1
-  rw [h2.1, h2.2] at h1
+  rw [h2.1, h2.2.1] at h1
   cases h1
 
 /-- The prefilter can only remove a match, never alter one. -/
@@ -214,53 +240,36 @@ theorem prefilter_only_removes (a : Adapter) (read beyond : Bytes) :
   · exact Or.inl rfl
   · exact Or.inr rfl
 
-example : matchToFiltered w2 [84, 84, 71, 84] [] = matchTo w2 [84, 84, 71, 84] := by decide +kernel
-
-/-- the adapter classes whose finder searches the chunks of the whole adapter in the whole read (`internal=True`) -/
-def internalType (ty : AdapterType) : Bool := hasInternal ty
-
-/-- **The true fragment of the property.** Let `a` be an adapter with error rate below 1 (`AdapterOK`) and `read` an ASCII
-    read without NUL. Then `match_to` with the prefilter equals the aligner alone whenever
-    * the finder is the mock finder by construction (anchored adapter without indels), or
-    * the aligner alone finds nothing, or
-    * the adapter class is regular 3', regular 5', rightmost 5' or anywhere and the match found by the aligner alone
-      spans the whole adapter (`astart = 0`, `astop = len(adapter)`), with any number of errors and indels.
-    The soundness of `Aligner.locate` (C01: `Cutadapt.Align.locate_sound`) enters as the hypothesis `hsound`; it has the
-    shape of that theorem, so the two compose (see `Cutadapt/Proofs/KmerCompose.lean`). -/
+/-- **The property on its safe domain** (repaired tables). For every adapter with error rate below 1 (`AdapterOK`) and every
+    read with `Kmer.safeDomain a read = true` — ASCII without NUL, and not (the finder searches both overlap directions and
+    `|read| < |adapter| + ⌊rate·|adapter|⌋`) — `match_to` with the prefilter reports exactly what the aligner alone reports:
+    all eight adapter classes (and `;anywhere`), matches of any placement, any number of errors and indels, whatever lies
+    behind the read in memory. The soundness of `Aligner.locate` (C01: `Cutadapt.Align.locate_sound`) enters as the hypothesis
+    `hsound`, which has the shape of that theorem (`Cutadapt/Proofs/KmerCompose.lean` discharges it). -/
 theorem prefilter_safe_partial (a : Adapter) (hok : AdapterOK a)
     (hsound : LocateSound (alignerCfg a (flagsOf a)) a.seq.length) (read beyond : Bytes)
-    (hread : ∀ c ∈ read, c ≠ 0 ∧ c < 128)
-    (hfrag : (isAnchored a.ty = true ∧ a.indels = false) ∨ matchTo a read = none ∨
-             (internalType a.ty = true ∧ ∀ mt, matchTo a read = some mt → mt.astart = 0 ∧ mt.astop = a.seq.length)) :
-    matchToFiltered a read beyond = matchTo a read := by
-  rcases hfrag with ⟨hanch, hind⟩ | hnone | ⟨hty, hfull⟩
-  · -- class-level mock finder
-    have : finderFor a = .mock := by
-      unfold finderFor finderArgs
-      cases hty : a.ty <;> rw [hty] at hanch <;> simp [isAnchored] at hanch <;> simp [hind]
-    simp [matchToFiltered, this, kmersPresent]
-  · rw [hnone]
-    rcases prefilter_only_removes a read beyond with h | h
-    · rw [h, hnone]
-    · exact h
-  · cases hm : matchTo a read with
-    | none =>
-      rcases prefilter_only_removes a read beyond with h | h
-      · rw [h, hm]
-      · exact h
-    | some mt =>
-      obtain ⟨h0, h1⟩ := hfull mt hm
-      have hside : PartialSide a :=
-        ⟨fun c hc => ⟨(hok.seq_ok c hc).1, (hok.seq_ok c hc).2.2⟩, hok.thr_mono,
-         hok.thr_lt a.seq.length hok.seq_ne, hok.overlap_pos⟩
-      have := prefilter_keeps_full_matches a hty hside hsound read beyond hread mt hm h0 h1
-      simp [matchToFiltered, this, hm]
+    (hdom : safeDomain a read = true) : matchToFiltered a read beyond = matchTo a read :=
+  matchToFiltered_eq_of_safeDomain a ⟨hok.thr_ok, hok.overlap_pos, hok.noindel_len⟩
+    (fun c hc => ⟨(hok.seq_ok c hc).1, (hok.seq_ok c hc).2.2⟩) hok.seq_ne hsound read beyond hdom
 
-/-- an instance: `BackAdapter("GCGGAAT", max_errors=0.2)` on a read with the whole adapter and one insertion -/
-example : matchTo (mkA .back [71, 67, 71, 71, 65, 65, 84] (· / 5) 3 false) [67, 71, 84, 71, 67, 71, 71, 65, 84, 65, 84, 67]
-      = some ⟨0, 7, 3, 11, 5, 1, false⟩ ∧
-    matchToFiltered (mkA .back [71, 67, 71, 71, 65, 65, 84] (· / 5) 3 false) [67, 71, 84, 71, 67, 71, 71, 65, 84, 65, 84, 67] []
-      = matchTo (mkA .back [71, 67, 71, 71, 65, 65, 84] (· / 5) 3 false) [67, 71, 84, 71, 67, 71, 71, 65, 84, 65, 84, 67] := by
-  decide +kernel
+/-! ### regression examples: the reproducers of the repaired classes (i), (iii), (v) on the model of the repaired code -/
+
+/-- (i) `SuffixAdapter("GCGGAAT", max_errors=0.2)` on `CGTGCGGATAT` -/
+example : matchToFiltered (mkA .suffix [71, 67, 71, 71, 65, 65, 84] (· / 5) 7 false) [67, 71, 84, 71, 67, 71, 71, 65, 84, 65, 84] []
+    = some ⟨0, 7, 3, 11, 5, 1, false⟩ := by decide +kernel
+
+/-- (iii) `FrontAdapter("ACGTACGTAC", max_errors=0, min_overlap=3)` on the empty read: the k-mer behind the read is not seen -/
+example : kmersPresent (finderFor (mkA .front [65, 67, 71, 84, 65, 67, 71, 84, 65, 67] (fun _ => 0) 3 false)) []
+    [0, 67, 71, 84, 65, 67] = false := by decide +kernel
+
+/-- (v) `BackAdapter("TCAAAACAGTTCAATGTGA", max_errors=0.15, min_overlap=3)` on `TCAAAATCAGTTACAATGTG` -/
+example : matchToFiltered
+    (mkA .back [84, 67, 65, 65, 65, 65, 67, 65, 71, 84, 84, 67, 65, 65, 84, 71, 84, 71, 65] (· * 3 / 20) 3 false)
+    [84, 67, 65, 65, 65, 65, 84, 67, 65, 71, 84, 84, 65, 67, 65, 65, 84, 71, 84, 71] []
+    = some ⟨0, 18, 0, 20, 14, 2, false⟩ := by decide +kernel
+
+/-- `safeDomain` for an `anywhere` adapter: reads shorter than `|adapter| + ⌊rate·|adapter|⌋` are outside -/
+example : safeDomain w2 [84, 84, 71] = false ∧ safeDomain w2 [84, 84, 71, 84] = true ∧
+    safeDomain (mkA .back [84, 84, 71, 84] (· / 5) 1 false) [71] = true := by decide +kernel
 
 end Cutadapt.C07
